@@ -20,6 +20,33 @@ FFS = [Fraction(1, 128), Fraction(1, 4), Fraction(1, 2), Fraction(1, 1)]
 FAMS = ["clustered", "clustered", "clustered", "uniform", "duplicates", "ties01", "lattice1d"]
 
 
+PRESENTATIONS = ["float64", "float64", "float64", "int8", "uint8", "int16", "int32", "int64", "float32", "list", "fortran"]
+
+
+def present(Xint, sp, kind):
+    """the same integer lattice handed to fit() in another container / dtype (exact in each of them)"""
+    if kind == "list":
+        return [list(map(int, r)) for r in Xint]
+    if kind in ("int8", "uint8", "int16", "int32", "int64", "float32"):
+        A = np.array(Xint, dtype=kind)
+        assert A.tolist() == [list(r) for r in Xint], "presentation %s does not hold the data" % kind
+        return A
+    A = np.array(Xint, dtype=float) * (2.0 ** sp)
+    return np.asfortranarray(A) if kind == "fortran" else A
+
+
+def _represent(X, kind):
+    """integer data brought into the range where the presentation is interesting (squares and sums
+    leave int8 / uint8 / int16 / int32 although every entry fits) — the model sees the same integers"""
+    if kind == "uint8":
+        return [[v + 64 for v in r] for r in X]                   # 2 .. 126
+    if kind == "int16":
+        return [[4 * v for v in r] for r in X]                    # |v| <= 250: squares leave int16
+    if kind in ("int32", "int64"):
+        return [[600 * v for v in r] for r in X]                  # |v| <= 37200: sums of squares leave int32
+    return X
+
+
 def _nts_for(rng, n, k):
     """a way of asking for k selections out of n: int, or a fraction / None resolving to k"""
     forms = [k]
@@ -39,11 +66,15 @@ def gen_session(rng, quick):
         nn = n if same_n else rng.randint(3, nmax)
         dd = d if rng.random() < 0.6 else rng.randint(2, 4)
         fam = rng.choice(FAMS)
-        data.append(dict(X=S.gen_matrix(rng, nn, dd, fam), family=fam,
-                         sp=rng.choice([0, 0, 0, -8, -14, 12, 3])))
+        kind = rng.choice(PRESENTATIONS)
+        yw = rng.choice([1, 1, 2])
+        data.append(dict(X=_represent(S.gen_matrix(rng, nn, dd, fam), kind), family=fam, present=kind,
+                         sp=rng.choice([0, 0, 0, -8, -14, 12, 3]) if kind in ("float64", "fortran") else 0,
+                         y=[[rng.randint(-9, 9) for _ in range(yw)] for _ in range(nn)],
+                         y1d=rng.random() < 0.5))
         return len(data) - 1
 
-    cur, nsel = None, 0
+    cur, nsel, cur_y = None, 0, False
     ff_unset = True          # is the parameter full_fraction None when the next call starts?
     ff_bad = False           # ... or an invalid value left by a rejected call?
     force = None             # kind of the next call (after a rejected cold fit: mostly a warm start)
@@ -66,7 +97,7 @@ def gen_session(rng, quick):
             else:
                 badff = None
                 badnt, expect = rng.choice([(0, "ValueError"), (-2, "ValueError"), (2.5, "TypeError")])
-            calls.append(dict(kind="cold", data=di, ff="raw", badff=badff, ntrial=badnt, rejected_ff=True,
+            calls.append(dict(kind="cold", data=di, ff="raw", badff=badff, ntrial=badnt, rejected_ff=True, with_y=rng.random() < 0.4,
                               nts=rng.randint(1, nn), init=rng.randrange(nn), expect=expect,
                               clock=[rng.random() < 0.5 for _ in range(7)]))
             ff_bad, ff_unset = badff is not None, badff is None
@@ -84,15 +115,15 @@ def gen_session(rng, quick):
                 di = new_data(same_n=(q < 0.75))
             nn = len(data[di]["X"])
             k = rng.randint(1, nn)
-            init = rng.choice([rng.randrange(nn), rng.randrange(nn), "random"])
+            init = rng.choice([rng.randrange(nn), rng.randrange(nn), "random", -rng.randint(1, nn)])
             bad = rng.random()
             nts = _nts_for(rng, nn, k)
             expect = "ok"
             if bad < 0.04:
                 nts, expect = rng.choice([0, nn + 1, 1.5, -1]), "ValueError"
             elif bad < 0.07:
-                init, expect = nn + rng.randint(0, 2), "IndexError"
-            calls.append(dict(kind="cold", data=di, ff=ff, nts=nts, init=init, expect=expect,
+                init, expect = rng.choice([nn + rng.randint(0, 2), -nn - rng.randint(1, 2)]), "IndexError"
+            calls.append(dict(kind="cold", data=di, ff=ff, nts=nts, init=init, expect=expect, with_y=rng.random() < 0.4,
                               clock=[rng.random() < rng.choice([0.1, 0.5, 0.9]) for _ in range(7)],
                               ntrial=rng.choice([1, 2, 4, 4])))
             # a cold fit that gets as far as _init_greedy_search stores the calibrated value
@@ -100,6 +131,7 @@ def gen_session(rng, quick):
             ff_bad = False
             if expect == "ok":
                 cur, nsel = di, k
+                cur_y = calls[-1]["with_y"]      # warm starts are called with the same (X, y) as the cold fit
             elif expect == "IndexError":
                 cur, nsel = None, 0
         else:
@@ -114,15 +146,15 @@ def gen_session(rng, quick):
                 # after a rejected cold fit: a warm start that really continues the selection
                 k = rng.randint(nsel + 1, nn)
                 calls.append(dict(kind="warm", data=cur, ff=ff, nts=_nts_for(rng, nn, k), expect="ok",
-                                  after_rejected=True))
+                                  after_rejected=True, with_y=cur_y))
                 nsel = k
                 continue
             if bad < 0.06 and nsel > 1:
                 k = rng.randint(1, nsel - 1)
-                calls.append(dict(kind="warm", data=cur, ff=ff, nts=k, expect="ValueError"))
+                calls.append(dict(kind="warm", data=cur, ff=ff, nts=k, expect="ValueError", with_y=cur_y))
                 continue
             k = rng.randint(nsel, nn)
-            calls.append(dict(kind="warm", data=cur, ff=ff, nts=_nts_for(rng, nn, k), expect="ok"))
+            calls.append(dict(kind="warm", data=cur, ff=ff, nts=_nts_for(rng, nn, k), expect="ok", with_y=cur_y))
             nsel = k
     if rng.random() < 0.05:
         calls.insert(0, dict(kind="warm", data=0, ff="keep", nts=2, expect="ValueError"))
@@ -172,7 +204,7 @@ class FakeClock:
         return self.t
 
 
-def fit_with_clock(sel, X, warm, outs, ntrial):
+def fit_with_clock(sel, X, warm, outs, ntrial, y=None):
     """sel.fit(X, warm_start=warm) under a FakeClock; returns the clock (calls == 0: no calibration)"""
     import skmatter.sample_selection._voronoi_fps as M
     clock = FakeClock(outs, ntrial)
@@ -181,7 +213,10 @@ def fit_with_clock(sel, X, warm, outs, ntrial):
     if had:
         M.time = clock
     try:
-        sel.fit(X, warm_start=warm)
+        if y is None:
+            sel.fit(X, warm_start=warm)
+        else:
+            sel.fit(X, y, warm_start=warm)
     finally:
         if had:
             M.time = old
@@ -232,7 +267,14 @@ def run_session(case):
     for ci, c in enumerate(case["calls"]):
         ds = case["data"][c["data"]]
         sp = ds["sp"]
-        X = np.array(ds["X"], dtype=float) * (2.0 ** sp)
+        Xf = np.array(ds["X"], dtype=float) * (2.0 ** sp)          # the float64 presentation (reference)
+        X = present(ds["X"], sp, ds.get("present", "float64"))
+        nX = len(ds["X"])
+        y = None
+        if c.get("with_y") and ds.get("y") is not None:
+            y = np.array(ds["y"], dtype=float)
+            if ds.get("y1d"):
+                y = y[:, 0]
         u2, u1 = 2.0 ** (-2 * sp), 2.0 ** (-sp)
         if positional and ci == 0:
             pass          # the constructor received them positionally
@@ -247,7 +289,7 @@ def run_session(case):
         rec = {}
         was_none = sel.full_fraction is None
         try:
-            clock = fit_with_clock(sel, X, c["kind"] == "warm", c.get("clock", []), c.get("ntrial", 4))
+            clock = fit_with_clock(sel, X, c["kind"] == "warm", c.get("clock", []), c.get("ntrial", 4), y)
             rec["calibrated"] = bool(was_none and clock.calls > 0)
         except Exception as e:  # noqa
             rec["error"] = S.err_class(e)
@@ -259,11 +301,12 @@ def run_session(case):
             rec["ff"], rec["ff_raw"] = None, repr(ffr)      # not a number (e.g. shifted constructor arguments)
         if "error" not in rec:
             k = int(sel.n_selected_)
-            rec.update(k=k, sel=[int(i) for i in sel.selected_idx_])
+            # a negative initialize is stored as given; everything else works on item n + i
+            rec.update(k=k, sel=[int(i) % nX for i in sel.selected_idx_], sel_raw0=int(sel.selected_idx_[0]))
             vd = np.asarray(sel.vlocation_of_idx).dtype
-            if vd.kind in "iu" and np.iinfo(vd).max < len(X) - 1:
+            if vd.kind in "iu" and np.iinfo(vd).max < nX - 1:
                 # a cell label is a selection rank: any rank up to n - 1 must fit (warm starts keep the array)
-                rec["narrow_labels"] = "vlocation_of_idx has dtype %s, which cannot hold the rank %d" % (vd, len(X) - 1)
+                rec["narrow_labels"] = "vlocation_of_idx has dtype %s, which cannot hold the rank %d" % (vd, nX - 1)
             try:
                 rec.update(
                     xsel=C.as_int_matrix(np.asarray(sel.X_selected_, float) * u1, "X_selected_"),
@@ -275,8 +318,8 @@ def run_session(case):
                     new=_ints(sel.new_dist_, u2, "new_dist_"),
                     seld=_ints(sel.get_select_distance(), u2, "get_select_distance"),
                     dist=_ints(sel.get_distance(), u2, "get_distance"))
-                ref = FPS(initialize=rec["sel"][0], n_to_select=k).fit(X)
-                rec["ref"] = dict(sel=[int(i) for i in ref.selected_idx_],
+                ref = FPS(initialize=rec["sel_raw0"], n_to_select=k).fit(Xf)
+                rec["ref"] = dict(sel=[int(i) % nX for i in ref.selected_idx_],
                                   haus=_ints(ref.get_distance(), u2, "FPS.get_distance"),
                                   seld=_ints(ref.get_select_distance(), u2, "FPS.get_select_distance"))
             except C.InexactOutput as e:
@@ -300,6 +343,13 @@ def _nts_coq(n, nts):
     return "(NtsFrac %s %s)" % (C.Zl(int(n * nts)), "true" if 0 < nts <= 1 else "false")
 
 
+def _norm_init(init, n):
+    """index the model works on: n + i for a negative i, n (= out of range) when that is still negative"""
+    if not isinstance(init, int):
+        return 0
+    return init if init >= 0 else (n + init if n + init >= 0 else n)
+
+
 def session_coq(case, res):
     items = []
     for c, r in zip(case["calls"], res["calls"]):
@@ -313,7 +363,7 @@ def session_coq(case, res):
             ntc = "(NTInt %s)" % C.Zl(bn) if isinstance(bn, int) else "NTOther"
             call = "VColdFF %s %s %s %s %d%%nat %s" % (C.zmat(X), ffc, ntc, br, c["init"], _nts_coq(n, c["nts"]))
         elif c["kind"] == "cold":
-            i0 = r["sel"][0] if "error" not in r else (c["init"] if isinstance(c["init"], int) else 0)
+            i0 = r["sel"][0] if "error" not in r else _norm_init(c["init"], n)
             call = "VCold %s %s %d%%nat %s" % (C.zmat(X), br, i0, _nts_coq(n, c["nts"]))
         else:
             call = "VWarm %s %s %s" % (C.zmat(X), br, _nts_coq(n, c["nts"]))
@@ -409,8 +459,9 @@ def session_oracle(case, res):
             want = S.resolve_niter(len(X), _nts_py(c["nts"]))
             if r["k"] != want or len(r["sel"]) != want:
                 return "%s: %d selections returned, %d requested" % (label, len(r["sel"]), want)
-            if isinstance(c.get("init"), int) and r["sel"][0] != c["init"]:
-                return "%s: starts at %d, initialize=%d" % (label, r["sel"][0], c["init"])
+            if isinstance(c.get("init"), int) and c["kind"] == "cold" and (
+                    r.get("sel_raw0", r["sel"][0]) != c["init"] or r["sel"][0] != c["init"] % len(X)):
+                return "%s: starts at %d (stored %s), initialize=%d" % (label, r["sel"][0], r.get("sel_raw0"), c["init"])
             if "inexact" in r:
                 msg = float_run_problem(np.array(X, float), r["sel"], r["dist_f"], label)
                 if msg:
@@ -597,7 +648,8 @@ def gen_thr_case(rng, quick):
         num, den = rng.choice([(1, 1), (2, 1), (5, 1), (3, 2), (max(1, dmax // 8), 1), (max(1, dmax // 2), 1),
                                (2 * dmax, 1), (1, 4)])
     ff = rng.choice([[1, 1], [1, 1], [1, 2], [1, 4], [1, 128]])
-    return dict(X=X, family=fam, sp=sp, thr_type=kind, num=num, den=den, ff=ff, init=rng.randrange(n),
+    return dict(X=X, family=fam, sp=sp, thr_type=kind, num=num, den=den, ff=ff,
+                init=rng.choice([rng.randrange(n), rng.randrange(n), rng.randrange(n), -rng.randint(1, n)]),
                 k=rng.randint(2, n), positional=rng.random() < 0.5)
 
 
@@ -640,7 +692,7 @@ def run_thr(case):
     except Exception as e:  # noqa
         return dict(error=S.err_class(e), error_msg=str(e)[:160])
     k = int(sel.n_selected_)
-    rec.update(error=None, k=k, order=order, ref_k=int(ref.n_selected_))
+    rec.update(error=None, k=k, order=[i % len(X) for i in order], ref_k=int(ref.n_selected_))
     try:
         rec.update(
             xsel=C.as_int_matrix(np.asarray(sel.X_selected_, float)[:k] * u1, "X_selected_"),
@@ -665,7 +717,7 @@ def thr_coq(case, res):
     t = "(%s %s %s)" % ("AbsThr" if case["thr_type"] == "absolute" else "RelThr", C.Zl(case["num"]), C.Zl(case["den"]))
     br = "(br_fraction %d%%nat %s %s)" % (len(X), C.Zl(case["ff"][0]), C.Zl(case["ff"][1]))
     return "thr_case_ok %s %s %d%%nat %s %d%%nat %s (mk_otrace %s %s %s %s %s %s %s %s %s)" % (
-        C.zmat(X), br, case["init"], t, case["k"], "true" if res["stopped"] else "false",
+        C.zmat(X), br, case["init"] % len(X), t, case["k"], "true" if res["stopped"] else "false",
         C.natlist(res["order"]), C.zmat(res["xsel"]), C.zlist(res["norms"]), _extl(res["haus"]), _extl(res["hsel"]),
         C.natlist(res["vloc"]), C.zlist(res["dsl"]), _extl(res["new"]), _extl(res["seld"]))
 
